@@ -28,3 +28,41 @@ package syncutil
 //@   ensures [C04:releases-once-iff-held] lr != nil && !old(lr.ended) ==> acquired(lr.limiter) == old(acquired(lr.limiter)) - 1
 //@   ensures [C04:no-double-release] lr != nil && old(lr.ended) ==> acquired(lr.limiter) == old(acquired(lr.limiter))
 //@   modifies LimitedRegion.ended@lr, ghost.acquired
+//@
+//@ // ---- dispatcher (C02, C04): what Go returns is the cancellation cause of its own context,
+//@ // so a cancelled parent, a failed permit acquisition and a failed task all surface
+//@ import errgroup "golang.org/x/sync/errgroup"
+//@ ghost local goStartFailed bool
+//@ ghost local goWaitFailed bool
+//@ ghost local goDispatched int
+//@ ghost local goParentCancelled bool
+//@ callback GoFuncCB
+//@   modifies all, except LimitedRegion.limiter
+//@ func Go
+//@   requires [wf] fn != nil
+//@   callee cancel CancelCauseFunc
+//@   call Group.Go requires [captured:tasks-see-initialised-state] fn != nil && cancel != nil && egCtx != nil
+//@   entry set goStartFailed = false
+//@   entry set goWaitFailed = false
+//@   entry set goDispatched = 0
+//@   call Start set goStartFailed = goStartFailed || result != nil
+//@   call Wait set goWaitFailed = result != nil
+//@   call Cause set goParentCancelled = ctxCause(ctx0) != nil
+//@   call Group.Go set goDispatched = goDispatched + 1
+//@   call LimitRegion requires [C04:one-region-per-item-on-the-shared-limiter] args.limiter == limiter && args.ctx == egCtx
+//@   loop 0 invariant [objects] ctx != nil && cancel != nil && cancelTarget(cancel) == ctx && ctxParent(ctx) == ctx0 && eg != nil && !goStartFailed
+//@   loop 0 invariant [C04:one-task-per-item] goDispatched == $i && $i <= len(items)
+//@   ensures [C02:parent-cancellation-surfaces] goParentCancelled ==> result != nil
+//@   ensures [C02:dispatch-failure-surfaces] goStartFailed ==> result != nil
+//@   ensures [C02:task-failure-surfaces] goWaitFailed ==> result != nil
+//@   ensures [C02,C04:every-item-dispatched] result == nil ==> goDispatched == len(items)
+//@
+//@ func Go$1$1
+//@   requires [wf] lr == nil || lr.limiter != nil
+//@   requires [captured:established-at-the-Group.Go-call-of-Go] fn != nil && cancel != nil && egCtx != nil
+//@   callee cancel CancelCauseFunc
+//@   callee fn GoFuncCB
+//@   call fn requires [C02:skipped-when-cancelled] !recvd(ctxDone(egCtx))
+//@   call fn requires [C04:task-runs-under-its-region] args.arg0 == egCtx && args.arg1 == lr && args.arg2 == t
+//@   ensures [C04:task-releases-permit] lr != nil ==> lr.ended
+//@   ensures [C02:task-error-cancels-siblings] result != nil ==> ctxCause(cancelTarget(cancel)) != nil
